@@ -783,6 +783,21 @@ class RewriteRuleSet:
                     f = ir.Function(domain, name, overload, graph=graph, attributes=())
                     model.functions[f.identifier()] = f
 
+                # A replacement may return one of its inputs. replace_nodes_and_values gives
+                # every new output the name of the value it replaces, which would rename a
+                # graph input: return a graph input through an Identity node instead.
+                if any(v.is_graph_input() for v in delta.new_outputs):
+                    new_nodes = list(delta.new_nodes)
+                    new_outputs = list(delta.new_outputs)
+                    for i, v in enumerate(new_outputs):
+                        if v.is_graph_input():
+                            identity = ir.Node("", "Identity", [v])
+                            new_nodes.append(identity)
+                            new_outputs[i] = identity.outputs[0]
+                    delta = dataclasses.replace(
+                        delta, new_nodes=new_nodes, new_outputs=new_outputs
+                    )
+
                 if verbose:
                     name = f"{rule.name}: " if rule.name else ""
                     print(f"----{name}Matched Nodes----")
